@@ -65,6 +65,16 @@ Theorem C19_never_reported_for_prefix : forall d orc ps m K, wf_layersdir d = tr
 Proof. exact never_reported_for_prefix. Qed.
 Print Assumptions C19_never_reported_for_prefix.
 
+(* frame: the entries of /proc none of whose links starts with layers/ -- every other process of
+   the host -- do not change what is reported for any layer (this is what allows the live runs
+   of the correspondence check to hand the model only the related processes) *)
+Theorem C19_unrelated_irrelevant : forall d ps K, wf_layersdir d = true -> no_slash K = true ->
+  exists m m', find_layer_users d no_faults ps = SOk m
+    /\ find_layer_users d no_faults (filter (related d) ps) = SOk m'
+    /\ map proj (get m K) = map proj (get m' K).
+Proof. exact unrelated_irrelevant. Qed.
+Print Assumptions C19_unrelated_irrelevant.
+
 (* classification: MountBusy iff some user's path is at or below the build, work or upper
    directory; Chroot iff some user is a root link; any user makes the layer busy in one of the
    two ways; no user, no flag *)
